@@ -1171,8 +1171,6 @@ def to_digits_exp(s, dps):
 
     bitprec = int(dps * math.log(10,2)) + 10
 
-    # Cut down to size
-    # TODO: account for precision when doing this
     exp_from_1 = exp + bc
     if abs(exp_from_1) > 3500:
         from .libelefun import mpf_ln2, mpf_ln10
@@ -1195,6 +1193,11 @@ def to_digits_exp(s, dps):
     # a decimal fixed-point number.
     fixprec = max(bitprec - exp - bc, 0)
     fixdps = int(fixprec / math.log(10,2) + 0.5)
+    # Keep every bit of a mantissa that is longer than bitprec, so that
+    # the digits are those of the exactly truncated decimal expansion
+    # (dropping low bits first could move the number across a decimal
+    # rounding boundary, e.g. 0.52500000000000013 -> '0.52')
+    fixprec = max(fixprec, -exp)
     sf = to_fixed(s, fixprec)
     sd = bin_to_radix(sf, fixprec, 10, fixdps)
     digits = numeral(sd, base=10, size=dps)
